@@ -279,10 +279,20 @@ class C01(UdpCheck):
                     tb = TaggedBytes(d)
                     tb.origin, tb.meta = "attacker", meta
                     cn.sock.queue.insert(0, (tb, SERVER_ADDR))
+                    keyed = bool(c.conn is not None and c.conn.session_key_bytes)
+                    sent0 = cn.sock.sent
                     try:
                         c.update()
-                    except Exception as e:      # noqa: recorded, not judged (outside the statement)
+                    except Exception as e:      # noqa
                         w.probe("client_update_raised_on_hostile_datagram_" + type(e).__name__)
+                        if keyed:
+                            # "is discarded": with a session key in place a hostile datagram is dropped, it does not come
+                            # back to the application as an exception that also skips the send half of the frame (emission
+                            # of the due datagram, timeout processing). Before a key exists the hello parser may raise.
+                            w.violation("hostile_datagram_raised_out_of_client_update_on_keyed_connection",
+                                        {"gen": meta.get("gen"), "exc": "%s: %s" % (type(e).__name__, str(e)[:60]), "len": len(d),
+                                         "datagram_emitted_in_this_update": cn.sock is not None and cn.sock.sent != sent0},
+                                        key="%s:%s" % (meta.get("gen"), type(e).__name__))
                     if cn.client is None or cn.client.conn is None:
                         break
                     for seq, msg in c.getMessages():
